@@ -275,6 +275,52 @@ def make_container(run):
     return scared.Container(make_ths(run), frame=py_frame_obj(run['frame']), preprocesses=[P[p] for p in run['chain']])
 
 
+def install(cont, frame, chain, how, frame_changed=True):
+    """Re-assign / mutate in place the public attributes of a Container that was already used."""
+    P = prep_functions()
+    new = [P[p] for p in chain]
+    if how == 'append' and len(new) == len(cont.preprocesses) + 1:
+        cont.preprocesses.append(new[-1])
+    elif how == 'insert0' and len(new) == len(cont.preprocesses) + 1:
+        cont.preprocesses.insert(0, new[0])
+    elif how == 'reverse' and len(new) == len(cont.preprocesses):
+        cont.preprocesses.reverse()
+    elif how == 'setitem' and len(new) == len(cont.preprocesses):
+        for i, f in enumerate(new):
+            cont.preprocesses[i] = f
+    elif how == 'slice_assign':
+        cont.preprocesses[:] = new
+    else:
+        cont.preprocesses = new
+    if frame_changed:
+        fo = py_frame_obj(frame)
+        cont.frame = ... if fo is None else fo
+
+
+def build_container(case, run, containers, other_analysis):
+    """The Container of a run(): a new one, a new one that was already used with other attribute values, or an earlier one."""
+    if run.get('reuse') is not None:
+        cont = containers[run['reuse']]
+        install(cont, run['frame'], run['chain'], run.get('how', 'assign'))
+        return cont
+    pre = run.get('pre')
+    if not pre:
+        return make_container(run)
+    cont = make_container(dict(run, frame=pre['frame'], chain=pre['chain']))
+    if pre['use'] == 'run':
+        other_analysis().run(cont)
+    elif pre['use'] == 'batch_size':
+        cont.batch_size
+    elif pre['use'] == 'trace_size':
+        cont.trace_size
+    else:
+        for b in cont.batches():
+            b.samples
+            break
+    install(cont, run['frame'], run['chain'], pre['how'])
+    return cont
+
+
 def int_rows(a):
     """Rows of an integer-valued 2-D array as lists of ints; None when a value is not an integer."""
     a = np.asarray(a)
@@ -344,9 +390,11 @@ def gen_chain(rng, L1, nmax=3):
     return chain
 
 
-def gen_setting(rng, bs, size, L_in, itemsize):
+def gen_setting(rng, bs, size, L_in, itemsize, no_table=False):
     """A set_batch_size setting that makes container.batch_size == bs (bs >= 10 for the MB kind)."""
     kind = rng.choice(['int', 'int', 'table', 'table', 'mb'] if bs >= 10 and bs in (10, 20, 30, 40) else ['int', 'int', 'table'])
+    if no_table and kind == 'table':
+        kind = 'int'
     if kind == 'int':
         return ['int', bs]
     if kind == 'mb':
@@ -386,8 +434,36 @@ def data_values(case, meta_row):
     return [f(v ^ g) for g in gs for v in meta_row]
 
 
-def make_case(rng, cls, attack, sizes_bs, L=None, frame_kind=None, nchain=3, dtype=None, leak=None):
-    """sizes_bs: list of (N, bs) — one per run()."""
+SAME_LEN = ['add1', 'reverse', 'square', 'subfirst', 'cumsum']     # preprocesses that keep the trace length
+
+
+def vary_chain(rng, chain):
+    """Another chain giving traces of the same length; returns (new chain, how it can be installed on a used Container)."""
+    keep = [p for p in chain]
+    r = rng.random()
+    if r < 0.35 or not keep:
+        return keep + [rng.choice(SAME_LEN)], rng.choice(['append', 'assign', 'slice_assign'])
+    if r < 0.6 and len(keep) >= 2 and keep != keep[::-1]:
+        return keep[::-1], rng.choice(['assign', 'slice_assign', 'reverse'])
+    i = rng.randrange(len(keep))
+    if keep[i] == 'pairprod':
+        return [rng.choice(SAME_LEN)] + keep, rng.choice(['insert0', 'assign'])
+    new = rng.choice([p for p in SAME_LEN if p != keep[i]])
+    return keep[:i] + [new] + keep[i + 1:], rng.choice(['assign', 'slice_assign', 'setitem'])
+
+
+def vary_frame(rng, frame, L):
+    """Another frame selecting as many samples, or the same one."""
+    if frame[0] in ('list', 'array'):
+        return [frame[0], [rng.randrange(L) for _ in frame[1]]]
+    if frame[0] == 'slice' and frame[3] == 1 and frame[1] >= 1 and frame[2] <= L:
+        return ['slice', frame[1] - 1, frame[2] - 1, 1]
+    return frame
+
+
+def make_case(rng, cls, attack, sizes_bs, L=None, frame_kind=None, nchain=3, dtype=None, leak=None, step=None, history=None):
+    """sizes_bs: list of (N, bs) — one per run().  step: convergence_step (attacks).  history: None | 'reuse' | 'pre' | 'both':
+    the SAME Container object is used again after its public attributes were re-assigned / mutated in place."""
     L = L or rng.randint(3, 7)
     dtype = dtype or rng.choice(['uint8', 'uint8', 'int16', 'float32'])
     W = rng.randint(1, 2)
@@ -405,7 +481,7 @@ def make_case(rng, cls, attack, sizes_bs, L=None, frame_kind=None, nchain=3, dty
         # one numba compilation per (trace dtype, layout, precision, kernel): the partitioned classes always see float64 traces
         chain = ['add1']
     case = {'cls': cls, 'guesses': guesses, 'model': model, 'disc': rng.choice(list(DISCS)), 'prec': 'float64',
-            'partitions': None, 'bin_edges': None, 'runs': []}
+            'partitions': None, 'bin_edges': None, 'runs': [], 'step': step if attack else None}
     leak = rng.random() < 0.5 if leak is None else leak
     lo = 0 if dtype == 'uint8' else -3
     for ri, (N, bs) in enumerate(sizes_bs):
@@ -419,6 +495,31 @@ def make_case(rng, cls, attack, sizes_bs, L=None, frame_kind=None, nchain=3, dty
         if ri > 0 and frame[0] in ('list', 'array') and rng.random() < 0.5:    # another frame of the same length
             fr = [frame[0], [rng.randrange(L) for _ in frame[1]]]
         case['runs'].append({'samples': samples, 'meta': meta, 'dtype': dtype, 'frame': fr, 'chain': chain, 'bs': bs})
+    # container histories: "each run uses the attribute values current at that run"
+    if history in ('reuse', 'both'):
+        for ri in range(1, len(case['runs'])):
+            run = case['runs'][ri]
+            root = case['runs'][0]
+            run['reuse'] = 0
+            run['samples'], run['meta'] = root['samples'], root['meta']
+            prev = case['runs'][ri - 1]
+            run['chain'], run['how'] = vary_chain(rng, prev['chain'])
+            run['frame'] = vary_frame(rng, prev['frame'], L) if rng.random() < 0.4 and prev['frame'][0] != 'none' else prev['frame']
+            if run['frame'][0] == 'none':
+                run['frame'] = prev['frame']
+    if history in ('pre', 'both'):
+        run = case['runs'][0]
+        f0 = gen_frame(rng, L)
+        if f0[0] == 'none' and run['frame'][0] != 'none':
+            f0 = ['all']
+        c0 = gen_chain(rng, len(py_frame(f0, list(range(L)))), 2)
+        if rng.random() < 0.5:          # only the chain differs (what a snapshot of the chain would miss)
+            f0 = run['frame']
+            c0 = [p for p in vary_chain(rng, run['chain'])[0]] if rng.random() < 0.5 else run['chain'][:-1]
+        if cls in PARTITIONED and not c0:
+            c0 = ['square']
+        run['pre'] = {'frame': f0, 'chain': c0, 'use': rng.choice(['run', 'run', 'batch_size', 'trace_size', 'batches']),
+                      'how': rng.choice(['assign', 'slice_assign'])}
     # automatic class set: make sure the first trace already shows a value >= 9 (bracket 64 from the first batch on)
     if cls in PARTITIONED:
         top = 15 if model[0] == 'value' else 4
@@ -436,7 +537,9 @@ def make_case(rng, cls, attack, sizes_bs, L=None, frame_kind=None, nchain=3, dty
         rows = [py_chain(run['chain'], py_frame(run['frame'], s)) for s in run['samples']]
         vals += [v for r in rows for v in r]
         size = max(len(rows[0]), len(py_frame(run['frame'], run['samples'][0])))
-        run['setting'] = gen_setting(rng, run.pop('bs'), size, len(py_frame(run['frame'], run['samples'][0])), ITEMSIZE[dtype])
+        # a used Container keeps its first trace_size (cached): histories stay away from tables, which look at it
+        run['setting'] = gen_setting(rng, run.pop('bs'), size, len(py_frame(run['frame'], run['samples'][0])), ITEMSIZE[dtype],
+                                     no_table=history is not None)
     big = max(abs(v) for v in vals)
     if big > 2 ** 20:
         return None
@@ -479,7 +582,9 @@ class RunKind(Kind):
     rule = ('scared.<CPA|DPA|ANOVA|NICV|SNR|MIA><Attack|Reverse>.run(Container(read_ths_from_ram set, frame, preprocesses)) with '
             'set_batch_size int / table / MB float, N in 1..3*bs+2 (boundary block: N<bs, N=bs, N=k*bs+1, N=k*bs for every bs 1..12), '
             'frames None/Ellipsis/slice with step/range/index list and array with repeats, chains of 0-3 non-commuting row-wise '
-            'preprocesses, 1-3 successive run() calls, float32/float64; every update() logged and compared in Coq with the slices of the '
+            'preprocesses, 1-3 successive run() calls, float32/float64, attacks with and without convergence_step (step <,=,> bs, dividing N or '
+            'not, > N, derived batch size not dividing the step with N a multiple of the step), container histories (the same Container '
+            'used again by the same or another analysis object after preprocesses / frame were re-assigned or mutated in place); every update() logged and compared in Coq with the slices of the '
             'SPEC rows; results/scores compared with a one-shot update of a fresh distinguisher; non-trivial = at least two batches in '
             'some run')
 
@@ -513,6 +618,35 @@ class RunKind(Kind):
                     bs = rng.randint(1, 6)
                     c = make_case(rng, cls, rng.random() < 0.5, sizes_for(rng, bs, rng.randint(1, 2)), frame_kind=fk)
                 yield c
+        # --- attacks with a convergence_step: the final results / scores must still be the one-shot ones
+        attacks = [c for c in CLASSES]
+        # (a) derived batch size NOT dividing the step, N a multiple of the step: the last batch does not close a step
+        for st, bs in ((7, 3), (5, 2), (7, 2), (9, 2), (10, 3), (11, 3), (13, 5), (9, 4)):
+            for k in (2, 3):
+                cls = attacks[i % len(attacks)]
+                i += 1
+                c = None
+                while c is None:
+                    c = make_case(rng, cls, True, [(k * st, bs)], step=st)
+                yield c
+        # (b) step below / equal / above the batch size, dividing N or not, above N
+        for bs in (1, 3, 4, 8):
+            for st in sorted({1, max(1, bs - 1), bs, bs + 1, 2 * bs + 1, 50}):
+                cls = attacks[i % len(attacks)]
+                i += 1
+                c = None
+                while c is None:
+                    n = rng.choice([st, 2 * st, 2 * st + 1, max(1, st - 1), 3 * bs + 1]) if st < 50 else rng.randint(1, 20)
+                    c = make_case(rng, cls, True, [(min(n, 40), bs)] + sizes_for(rng, bs, rng.choice([0, 0, 1])), step=st)
+                yield c
+        # --- container histories: the same Container object used again after its attributes changed
+        for hist in ('reuse', 'reuse', 'pre', 'pre', 'both'):
+            for cls in CLASSES:
+                c = None
+                while c is None:
+                    bs = rng.randint(1, 6)
+                    c = make_case(rng, cls, rng.random() < 0.5, sizes_for(rng, bs, 1 if hist == 'pre' else rng.randint(2, 3)), history=hist)
+                yield c
         # --- thorough: all N <= 30 x bs <= 12 for CPA (attack) and SNR (reverse), frame + chain fixed per case
         if thorough:
             for bs in range(1, 13):
@@ -527,7 +661,14 @@ class RunKind(Kind):
         for _ in range(nrand):
             cls, attack = rng.choice(combos)
             bs = rng.choice([1, 2, 2, 3, 3, 4, 5, 6, 7, 8, 9, 10, 10, 11, 12, 20])
-            c = make_case(rng, cls, attack, sizes_for(rng, bs, rng.choice([1, 1, 2, 3])))
+            nruns = rng.choice([1, 1, 2, 3])
+            step = rng.choice([1, 2, 3, 4, 5, 6, 7, 9, 10, 13, 16, 25, 50]) if attack and rng.random() < 0.4 else None
+            r = rng.random()
+            hist = ('reuse' if nruns > 1 and r < 0.15 else 'both' if nruns > 1 and r < 0.2 else 'pre' if r < 0.3 else None)
+            sizes = sizes_for(rng, bs, nruns)
+            if step and rng.random() < 0.4:      # N a multiple of the step
+                sizes[-1] = (min(rng.randint(1, 4) * step, 40), sizes[-1][1])
+            c = make_case(rng, cls, attack, sizes, step=step, history=hist)
             if c is not None:
                 yield c
 
@@ -549,11 +690,13 @@ class RunKind(Kind):
         try:
             with warnings.catch_warnings():
                 warnings.simplefilter('ignore')
-                a = Logged(**analysis_kwargs(case))
+                a = Logged(**analysis_kwargs(case, convergence_step=case.get('step')))
                 all_t, all_pt = [], []
+                containers = []
                 for run in case['runs']:
                     scared.set_batch_size(setting_obj(run['setting']))
-                    cont = make_container(run)
+                    cont = build_container(case, run, containers, lambda: cls(**analysis_kwargs(case)))
+                    containers.append(cont)
                     try:
                         b = cont.batch_size
                         obs['bs'].append(None if b is None else int(b))
@@ -600,9 +743,10 @@ class RunKind(Kind):
                 C.coq_list([coq_zrow(s, m) for s, m in zip(run['samples'], run['meta'])]), coq_frame(run['frame']),
                 C.coq_list([PREP_COQ[p] for p in run['chain']]), coq_setting(run['setting']), C.coq_z(ITEMSIZE[run['dtype']]),
                 C.coq_option(ob, C.coq_z)))
-        head = 'c2_guesses := %s; c2_model := %s; c2_prec := %s; c2_runs := %s; c2_disc := %s' % (
+        head = 'c2_guesses := %s; c2_model := %s; c2_prec := %s; c2_step := %s; c2_runs := %s; c2_disc := %s' % (
             C.coq_option(case['guesses'], lambda g: C.coq_list(g, C.coq_z)), coq_model(case['model']),
-            'F32' if case['prec'] == 'float32' else 'F64', C.coq_list(runs), DISCS[case['disc']])
+            'F32' if case['prec'] == 'float32' else 'F64', C.coq_option(case.get('step'), C.coq_nat), C.coq_list(runs),
+            DISCS[case['disc']])
         if 'raised' in obs:
             return ('{| %s; c2_obs_updates := []; c2_obs_processed := 0%%nat; c2_res_shape := []; c2_obs_results := []; '
                     'c2_obs_scores := None; c2_one_results := []; c2_one_scores := None |}' % head)
@@ -632,7 +776,17 @@ class RunKind(Kind):
     def features(self, case, obs):
         f = {'class': case['cls'] + ('Attack' if case['guesses'] is not None else 'Reverse'), 'runs': len(case['runs']),
              'prec': case['prec'], 'chain_len': len(case['runs'][0]['chain']), 'frame': case['runs'][0]['frame'][0],
-             'setting': case['runs'][0]['setting'][0], 'auto_partitions': case['cls'] in PARTITIONED and case['partitions'] is None}
+             'setting': case['runs'][0]['setting'][0], 'auto_partitions': case['cls'] in PARTITIONED and case['partitions'] is None,
+             'history': '+'.join(sorted({'reuse' for r in case['runs'] if r.get('reuse') is not None} |
+                                        {'pre:' + r['pre']['use'] for r in case['runs'] if r.get('pre')})) or 'none'}
+        st = case.get('step')
+        if st is None:
+            f['step'] = 'none'
+        else:
+            n0 = len(case['runs'][0]['samples'])
+            b0 = (obs.get('bs') or [0])[0] or 0
+            f['step'] = ('lt_bs' if st < b0 else 'eq_bs' if st == b0 else 'gt_bs') + ('/gt_N' if st > n0 else '/divides_N' if n0 % st == 0
+                                                                                        else '/not_dividing_N')
         if 'raised' not in obs:
             bs = obs['bs'][0] or 0
             n = len(case['runs'][0]['samples'])
@@ -645,34 +799,44 @@ class RunKind(Kind):
         return ['run_vs_oneshot']
 
     def sample(self, case, obs):
-        c = {k: case[k] for k in ('cls', 'guesses', 'model', 'disc', 'prec', 'partitions', 'bin_edges')}
-        c['runs'] = [{'n': len(r['samples']), 'frame': r['frame'], 'chain': r['chain'], 'setting': r['setting'], 'dtype': r['dtype']}
-                     for r in case['runs']]
+        c = {k: case.get(k) for k in ('cls', 'guesses', 'model', 'disc', 'prec', 'partitions', 'bin_edges', 'step')}
+        c['runs'] = [{'n': len(r['samples']), 'frame': r['frame'], 'chain': r['chain'], 'setting': r['setting'], 'dtype': r['dtype'],
+                      'reuse': r.get('reuse'), 'how': r.get('how'), 'pre': r.get('pre')} for r in case['runs']]
         o = {k: obs.get(k) for k in ('bs', 'processed', 'shape')}
         if 'updates' in obs:
             o['update_sizes'] = [u['n_traces'] for u in obs['updates']]
         return {'case': c, 'observed': o}
 
     def shrink(self, case):
-        # fewer runs, then fewer traces in a run, then a shorter chain, then no frame
-        if len(case['runs']) > 1:
-            for i in range(len(case['runs'])):
-                c = dict(case)
-                c['runs'] = case['runs'][:i] + case['runs'][i + 1:]
-                yield c
-        for i, r in enumerate(case['runs']):
+        # fewer runs, then fewer traces in a run (a Container that is used again keeps its trace set), then a shorter chain
+        runs = case['runs']
+        hist = any(r.get('reuse') is not None or r.get('pre') for r in runs)
+        if len(runs) > 1:
+            for i in range(len(runs)):
+                if any(r.get('reuse') == i for r in runs):
+                    continue
+                new = [dict(r) for j, r in enumerate(runs) if j != i]
+                for r in new:
+                    if r.get('reuse') is not None and r['reuse'] > i:
+                        r['reuse'] -= 1
+                yield dict(case, runs=new)
+        for i, r in enumerate(runs):
+            if r.get('reuse') is not None:
+                continue
             n = len(r['samples'])
             for keep in (n // 2, n - 1):
                 if 1 <= keep < n:
-                    c = dict(case)
-                    r2 = dict(r)
-                    r2['samples'] = r['samples'][:keep]
-                    r2['meta'] = r['meta'][:keep]
-                    c['runs'] = case['runs'][:i] + [r2] + case['runs'][i + 1:]
-                    yield c
-        if case['runs'][0]['chain'] and case['cls'] != 'MIA':
+                    new = [dict(q) for q in runs]
+                    for j, q in enumerate(new):
+                        if j == i or q.get('reuse') == i:
+                            q['samples'] = r['samples'][:keep]
+                            q['meta'] = r['meta'][:keep]
+                    yield dict(case, runs=new)
+        if case.get('step') and case['step'] > 1:
+            yield dict(case, step=case['step'] - 1)
+        if not hist and runs[0]['chain'] and case['cls'] != 'MIA':
             c = dict(case)
-            c['runs'] = [dict(r, chain=r['chain'][:-1]) for r in case['runs']]
+            c['runs'] = [dict(r, chain=r['chain'][:-1]) for r in runs]
             if all(len(py_chain(r['chain'], py_frame(r['frame'], r['samples'][0]))) >= 1 for r in c['runs']):
                 yield c
 
